@@ -76,7 +76,9 @@ def cases(draw, cr=False, phrases=None):
         edits = [[draw(st.integers(0, 9)), draw(st.integers(0, 9)), draw(st.sampled_from(['INTEGER', 'STRING', 'BOOLEAN', 'REAL', 'UNIQUE_ID']))]
                  for _ in range(draw(st.integers(1, 2)))]
     return {'schema': schema_js, 'pop': pop, 'route': draw(st.sampled_from(ROUTES)),
-            'order': draw(st.permutations([0, 1, 2])), 'unset': unset, 'late': late, 'drop': drop, 'edits': edits}
+            'order': draw(st.permutations([0, 1, 2])), 'unset': unset, 'late': late, 'drop': drop, 'edits': edits,
+            # a quarter of the loads are preceded, on the same loader, by a damaged copy of the text that the loader rejects
+            'spoil': draw(st.one_of(st.none(), st.none(), st.none(), st.integers(0, 39)))}
 
 
 def dropped_links(case):
@@ -277,11 +279,25 @@ def compare(want, got, case, tag):
             fail('links', '%s want %r got %r' % (k, sorted(want['links'][k]), sorted(got['links'].get(k, []))))
 
 
-def load_text(parts):
+def load_text(parts, spoil=None):
     l = xtuml.ModelLoader()
+    if spoil is not None and parts:
+        # a damaged copy first (cut off inside a statement, as a half-written file would be): the loader turns it down and is
+        # then given the intact text; what comes back must be the saved model, nothing of the damaged copy
+        whole = parts[spoil % len(parts)]
+        cut = whole[:max(len(whole) * (3 + spoil % 5) // 8, 1)].rstrip().rstrip(';') + ' ('
+        try:
+            l.input(cut)
+        except xtuml.ParsingException:
+            SPOILED[0] += 1
+        else:
+            l = xtuml.ModelLoader()         # the cut happened to leave an acceptable text: not the situation meant here
     for p in parts:
         l.input(p)
     return l.build_metamodel(xtuml.IntegerGenerator())
+
+
+SPOILED = [0]
 
 
 def edited(case):
@@ -320,6 +336,7 @@ def edited(case):
 
 
 def run_case(case, res=None):
+    SPOILED[0] = 0
     orig = case
 
     def fail(bucket, detail):
@@ -359,10 +376,10 @@ def run_case(case, res=None):
                 text = xtuml.serialize_database(m0)
                 if xtuml.serialize(m0) != text:
                     fail('serialize-dispatch-metamodel', 'serialize(m) != serialize_database(m)')
-                m1 = load_text([text])
+                m1 = load_text([text], case.get('spoil'))
             elif route == 'three-inputs':
                 parts = [xtuml.serialize_schema(m0), xtuml.serialize_instances(m0), xtuml.serialize_unique_identifiers(m0)]
-                m1 = load_text([parts[i] for i in case['order']])
+                m1 = load_text([parts[i] for i in case['order']], case.get('spoil'))
             elif route == 'persist-database':
                 p = os.path.join(tmp, 'c01-%d-%s.sql' % (os.getpid(), tag))
                 files.append(p)
@@ -377,7 +394,7 @@ def run_case(case, res=None):
                 m1 = xtuml.load_metamodel([ps[i] for i in case['order']])
             else:
                 text = xtuml.serialize_instances(m0)
-                m1 = load_text([text])
+                m1 = load_text([text], case.get('spoil'))
         except Violation:
             raise
         except Exception as e:
@@ -416,7 +433,7 @@ def run_case(case, res=None):
         # fixed point after one round
         try:
             t2 = xtuml.serialize(m1)
-            m2 = load_text([t2])
+            m2 = load_text([t2], case.get('spoil'))
             t3 = xtuml.serialize(m2)
         except Exception as e:
             fail('second-round:exception:%s' % exc_bucket(e), repr(e))
@@ -450,6 +467,9 @@ def run_case(case, res=None):
             cl.append('built-instances-first')
             if dropped_links(case):
                 cl.append('links-removed-again')
+        if SPOILED[0]:
+            cl.append('damaged-copy-rejected-first')
+            SPOILED[0] = 0
         res.case(orig, nt, sample=orig if nt and len(repr(orig)) < 1900 else None, classes=sorted(set(cl)))
 
 
